@@ -195,7 +195,8 @@ def _integrals(r, cop, ref, fam, th, tier, sig, case):
             r.ev(n)
             d = float(hh[k + 1] - hh[k])
             r.state((fam, th, 'seg', a, b, v))
-            if not abs(val - d) <= 1e-6 * abs(d) + 1e-9 + 10 * est and not done:
+            # Frank's h loses ~1e-9 absolute for |theta| >= 8 (g(u)g(v)+g(u) cancellation), hence the wider floor there
+            if not abs(val - d) <= 1e-6 * abs(d) + (1e-8 if bucket == 'high-theta' else 1e-9) + 10 * est and not done:
                 done = True
                 r.violation(f'{sig}:pdf:line-integral:{bucket}',
                             f'{fam} theta={th}: int_{a}^{b} pdf(u,{v})du = {val!r} but h({b},{v})-h({a},{v}) = {d!r}',
